@@ -4,7 +4,7 @@ import random
 
 from lib import vlib
 
-ENVNAMES = '  EnvNames = {"A", "B", "C", "Z", "A2", "UNRELATED"}\n'
+ENVNAMES = '  EnvNames = {"A", "B", "C", "Z", "A2", "UNRELATED", "command", "plugins", "repository_url"}\n'
 CFG = "SPECIFICATION Spec\nCONSTANTS\n  DoExport = TRUE\n" + ENVNAMES + "INVARIANTS InvImplEqualsRule InvCatalogue Export\nCHECK_DEADLOCK FALSE\n"
 ASSUMPTIONS = [
     "Cryptography is symbolic in the model (a signature verifies exactly under its own key pair and algorithm over the same payload); the JOSE library's soundness is assumed. ECDSA malleability and non-canonical base64 trailing bits are not 'altering the record' and are never generated; bit flips are made on the decoded signature bytes.",
